@@ -200,6 +200,22 @@ def replay_in_fresh_process(prop, path):
     return cp.returncode == 1 and "VIOLATION" in cp.stdout, cp.stdout + cp.stderr
 
 
+def _remove_stale_scratch():
+    """Scratch directories of workers that no longer exist (a killed sweep) are removed."""
+    import re
+    import shutil
+
+    base = "/dev/shm" if os.path.isdir("/dev/shm") else os.environ.get("TMPDIR", "/tmp")
+    try:
+        names = os.listdir(base)
+    except OSError:
+        return
+    for n in names:
+        m = re.fullmatch(r"gwfsim-(\d{7})", n)
+        if m and not os.path.exists(f"/proc/{int(m.group(1))}"):
+            shutil.rmtree(os.path.join(base, n), ignore_errors=True)
+
+
 # ------------------------------------------------------------------------------------------
 def main(argv=None):
     ap = argparse.ArgumentParser(prog="check")
@@ -231,6 +247,7 @@ def main(argv=None):
         print("replay: no violation")
         return 0
 
+    _remove_stale_scratch()
     verif_seed = int(os.environ.get("VERIF_SEED", "0"))
     tier = args.tier
     n_runs = args.runs or chk.RUNS[tier]
